@@ -330,3 +330,4 @@ def http_get(exp, deadline=5.0):
             s.close()
         except OSError:
             pass
+
